@@ -300,4 +300,121 @@ theorem bettorWins_parts (bettor : Nat) : ∀ (fs : List Fulf) (bal : List (Nat 
       rw [m5, cProfit_cons]
       simp [hne]
 
+-- ---------------------------------------------------------------------------------------------
+-- the pool covers the pay-out of a winning bet
+
+theorem sumBy_add {α : Type} (f g : α → Int) (l : List α) : sumBy (fun x => f x + g x) l = sumBy f l + sumBy g l := by
+  induction l with
+  | nil => rfl
+  | cons y ys ih => rw [sumBy_cons, sumBy_cons, sumBy_cons, ih]; omega
+
+/-- in a store sorted by participation index exactly one participation carries a given (present) index -/
+theorem sumBy_indicator (c : Int) (j : Nat) : ∀ (parts : List Part), Sorted Part.key parts → (∃ p ∈ parts, p.idx = j) →
+    sumBy (fun p => if j = p.idx then c else 0) parts = c := by
+  intro parts
+  induction parts with
+  | nil => intro _ h; obtain ⟨p, hp, _⟩ := h; cases hp
+  | cons q qs ih =>
+    intro hs hex
+    have hs' := hs
+    unfold Sorted at hs'
+    rw [List.pairwise_cons] at hs'
+    rw [sumBy_cons]
+    by_cases e : j = q.idx
+    · have hz : sumBy (fun p => if j = p.idx then c else 0) qs = 0 := by
+        apply sumBy_zero
+        intro p hp
+        have := part_key_ne (ltL_ne _ _ (hs'.1 p hp))
+        have : ¬ j = p.idx := fun e' => this (by rw [← e, e'])
+        simp [this]
+      rw [hz]; simp [e]
+    · obtain ⟨p, hp, hpj⟩ := hex
+      have hin : p ∈ qs := by
+        rcases List.mem_cons.mp hp with rfl | h
+        · exact absurd hpj.symm e
+        · exact h
+      rw [ih hs'.2 ⟨p, hin, hpj⟩]
+      simp [e]
+
+theorem sumBy_cProfit (parts : List Part) (hs : Sorted Part.key parts) : ∀ (fs : List Fulf),
+    (∀ f ∈ fs, ∃ p ∈ parts, p.idx = f.idx) → sumBy (fun p => cProfit fs p.idx) parts = sumProfit fs := by
+  intro fs
+  induction fs with
+  | nil =>
+    intro _
+    show sumBy (fun p => cProfit [] p.idx) parts = 0
+    exact sumBy_zero _ _ (fun _ _ => rfl)
+  | cons f rest ih =>
+    intro h
+    have : sumBy (fun p => cProfit (f :: rest) p.idx) parts =
+        sumBy (fun p => (if f.idx = p.idx then f.profit else 0) + cProfit rest p.idx) parts :=
+      sumBy_congr _ _ _ (fun p _ => cProfit_cons f rest p.idx)
+    rw [this, sumBy_add, sumBy_indicator f.profit f.idx parts hs (h f (List.mem_cons_self ..)),
+      ih (fun g hg => h g (List.mem_cons_of_mem _ hg))]
+    simp [sumProfit]
+
+theorem payout_split (fs : List Fulf) : sumBy (fun f => f.profit + f.bet) fs = sumProfit fs + sumBet fs := by
+  rw [sumBy_add]; rfl
+
+/-- an unsettled bet lives on an ACTIVE book, none of whose participations is paid -/
+theorem open_bet_book {s : State} (hS : SettleInv s) {x : Bet} (hx : x ∈ s.bets) (ho : x.isOpen = true) {bk : Book}
+    (hbk : getBook s x.market = some bk) : bk.status = OB_ACTIVE ∧ ∀ p ∈ bk.parts, p.isSettled = false := by
+  obtain ⟨hbm, hbu⟩ := getBook_mem hbk
+  have hact : bk.status = OB_ACTIVE := by
+    by_cases e : bk.status = OB_ACTIVE
+    · exact e
+    · have := hS.closedNoOpen bk hbm e x hx hbu.symm
+      rw [ho] at this; cases this
+  refine ⟨hact, ?_⟩
+  intro p hp
+  cases hps : p.isSettled
+  · rfl
+  · exact absurd hact (hS.settledClosed bk hbm p hp hps)
+
+/-- SOLVENCY AT WORK: the pool holds the whole pay-out (stakes + promised profits) of an unsettled bet on the
+    declared winning outcome: the stakes are part of what the pool owes to bets, and the promised profits are covered
+    by what it owes to the participations of that book -/
+theorem pool_covers_win {s : State} (hS : SettleInv s) (hH : HInv s) (hV : Solvent s) {x : Bet} (hx : x ∈ s.bets)
+    (ho : x.isOpen = true) {bk : Book} (hbk : getBook s x.market = some bk) (hw : wonOutcome s x.market x.odds = true) :
+    sumBy (fun f => f.profit + f.bet) x.fulfs ≤ getBal s.bal ACC_POOL := by
+  obtain ⟨hbm, hbu⟩ := getBook_mem hbk
+  obtain ⟨_, hunp⟩ := open_bet_book hS hx ho hbk
+  rw [payout_split, hS.pool]
+  unfold owedPool
+  have h1 : x.owedStake ≤ sumBy Bet.owedStake s.bets :=
+    sumBy_mem_le _ _ (fun y hy => (hV.stake_nonneg y hy).1) x hx
+  have h1' : x.owedStake = sumBet x.fulfs := by unfold Bet.owedStake; rw [ho]; rfl
+  have h2 : bk.owed ≤ sumBy Book.owed s.books := sumBy_mem_le _ _ (fun b hb => (hV.book_nonneg b hb).1) bk hbm
+  have h3 : sumProfit x.fulfs ≤ bk.owed := by
+    have hfp : ∀ f ∈ x.fulfs, ∃ p ∈ bk.parts, p.idx = f.idx := by
+      intro f hf
+      obtain ⟨b, p, hb, hp⟩ := hH.fulfParts x hx ho f hf
+      rw [hbk] at hb; cases hb
+      exact ⟨p, getPart_mem hp, Book.getPart_idx hp⟩
+    rw [← sumBy_cProfit bk.parts (hS.sortedParts bk hbm) x.fulfs hfp]
+    unfold Book.owed
+    apply sumBy_le_sumBy
+    intro p hp
+    have hc := (hV.partCover bk hbm p hp (hunp p hp)).2
+    have hwin : winsOn s bk.uid x = true := by
+      unfold winsOn
+      rw [ho, hbu, hw]
+      simp
+    have hle : cProfit x.fulfs p.idx ≤ promisedW s bk.uid p.idx := by
+      have := sumBy_mem_le (fun y => if winsOn s bk.uid y then cProfit y.fulfs p.idx else 0) s.bets ?_ x hx
+      · unfold promisedW
+        simpa [hwin] using this
+      · intro y hy
+        split
+        · rename_i hwy
+          unfold winsOn at hwy
+          simp only [Bool.and_eq_true] at hwy
+          exact cProfit_nonneg _ _ (fun f hf => ((hV.betNonneg y hy hwy.1.1).2 f hf).2)
+        · exact Int.le_refl _
+    unfold Part.owed
+    rw [hunp p hp]
+    simp only [Bool.false_eq_true, if_false]
+    omega
+  omega
+
 end Sge.Core
